@@ -330,12 +330,19 @@ pub const PAGE_NAMES: [&str; 7] = ["main", "CB", "ED", "DD", "FD", "DDCB", "FDCB
 /// One compared step. Returns the reference step info and any mismatch.
 pub struct StepOut {
     pub info: refz80::StepInfo,
+    /// first mismatch (any class)
     pub mismatch: Option<Mismatch>,
+    /// further mismatches of other classes found in the same step (e.g. bus cycles differ as well)
+    pub more: Vec<Mismatch>,
     pub ref_cycles: Vec<Cy>,
     pub real_cycles: Vec<Cy>,
 }
 
 pub struct Pair {
+    /// cycles of the current (possibly multi-step) instruction: a DD/FD chain is compared as a whole
+    /// when it completes, because the boundary between two prefixes is not architecturally visible
+    acc_real: Vec<Cy>,
+    acc_ref: Vec<Cy>,
     pub real_mem: UndoMem,
     pub ref_mem: UndoMem,
     pub cpu: Z80,
@@ -347,9 +354,11 @@ impl Pair {
     pub fn new(rng: &mut Rng) -> Pair {
         let real_mem = UndoMem::new(rng);
         let ref_mem = UndoMem { m: real_mem.m.clone(), undo: Vec::with_capacity(256) };
-        Pair { real_mem, ref_mem, cpu: Z80::default(), rs: RZ::default(), script: Script::default() }
+        Pair { acc_real: vec![], acc_ref: vec![], real_mem, ref_mem, cpu: Z80::default(), rs: RZ::default(), script: Script::default() }
     }
     pub fn reset_case(&mut self) {
+        self.acc_real.clear();
+        self.acc_ref.clear();
         self.real_mem.restore();
         self.ref_mem.restore();
     }
@@ -388,40 +397,49 @@ impl Pair {
         };
         self.script.step += 1;
         let real = read_real(&mut self.cpu);
+        let opname = format!("{}:{:02x}", PAGE_NAMES[info.page as usize], info.opcode);
+        let mut found: Vec<Mismatch> = vec![];
+        if !anomalies.is_empty() {
+            found.push(Mismatch { class: Class::Timing, key: format!("{}:bus-anomaly", opname), what: anomalies.join("; ") });
+        }
+        self.acc_real.extend_from_slice(&real_cycles);
+        self.acc_ref.extend_from_slice(&ref_cycles);
+        if self.rs.prefix != 0 {
+            // inside a prefix chain: only the interrupt inhibition is observable here
+            if !self.cpu.skip_interrupt {
+                found.push(Mismatch { class: Class::Sequencing, key: "prefix-chain:int-inhibit".into(), what: "interrupts are not inhibited between a DD/FD prefix and the following prefix/opcode".into() });
+            }
+            let mismatch = if found.is_empty() { None } else { Some(found.remove(0)) };
+            return StepOut { info, mismatch, more: found, ref_cycles, real_cycles };
+        }
+        let real_all = std::mem::take(&mut self.acc_real);
+        let ref_all = std::mem::take(&mut self.acc_ref);
         let seq_ctx = info.int_accepted
             || info.nmi_accepted
-            || info.prefix_only
             || before.halted
             || before.after_eidi
-            || before.prefix != 0
             || (info.page == 0 && matches!(info.opcode, 0x76 | 0xF3 | 0xFB))
             || (info.page == 2 && (info.opcode & 0xC7) == 0x45);
-        let opname = format!("{}:{:02x}", PAGE_NAMES[info.page as usize], info.opcode);
-        let mut mismatch = None;
-        if !anomalies.is_empty() {
-            mismatch = Some(Mismatch { class: Class::Timing, key: format!("{}:bus-anomaly", opname), what: anomalies.join("; ") });
+        if let Some(d) = diff_state(&real, self.cpu.skip_interrupt, &self.rs) {
+            let field = d.split(':').next().unwrap_or("").split('[').next().unwrap_or("").to_string();
+            // an interrupt line was active but the reference did not accept: a difference in
+            // control state means the real core did
+            let line_ctx = (self.script.int || self.script.nmi)
+                && matches!(field.as_str(), "pc" | "sp" | "iff1" | "iff2" | "halted" | "r" | "im" | "int-inhibit");
+            let class = if seq_ctx || line_ctx || field == "int-inhibit" { Class::Sequencing } else { Class::Result };
+            let ctx = if info.int_accepted { "+int" } else if info.nmi_accepted { "+nmi" } else { "" };
+            let chain = if before.prefix != 0 { "chain:" } else { "" };
+            found.push(Mismatch { class, key: format!("{}{}{}:{}", chain, opname, ctx, field), what: d });
         }
-        if mismatch.is_none() {
-            if let Some(d) = diff_state(&real, self.cpu.skip_interrupt, &self.rs) {
-                let field = d.split(':').next().unwrap_or("").split('[').next().unwrap_or("").to_string();
-                // an interrupt line was active but the reference did not accept: a difference in
-                // control state means the real core did
-                let line_ctx = (self.script.int || self.script.nmi)
-                    && matches!(field.as_str(), "pc" | "sp" | "iff1" | "iff2" | "halted" | "r" | "im" | "int-inhibit");
-                let class = if seq_ctx || line_ctx { Class::Sequencing } else { Class::Result };
-                let ctx = if info.int_accepted { "+int" } else if info.nmi_accepted { "+nmi" } else { "" };
-                mismatch = Some(Mismatch { class, key: format!("{}{}:{}", opname, ctx, field), what: d });
-            }
-        }
-        if mismatch.is_none() && access_view(&real_cycles) != access_view(&ref_cycles) {
+        if access_view(&real_all) != access_view(&ref_all) {
             let class = if seq_ctx { Class::Sequencing } else { Class::Result };
-            mismatch = Some(Mismatch {
+            found.push(Mismatch {
                 class,
                 key: format!("{}:access-sequence", opname),
-                what: format!("memory/port access sequence differs: real={:?} ref={:?}", real_cycles, ref_cycles),
+                what: format!("memory/port access sequence differs: real={:?} ref={:?}", real_all, ref_all),
             });
         }
-        if mismatch.is_none() && !cycles_equal(&real_cycles, &ref_cycles) {
+        if !cycles_equal(&real_all, &ref_all) {
             let ctx = if info.int_accepted {
                 format!("int-im{}", before.im)
             } else if info.nmi_accepted {
@@ -429,13 +447,15 @@ impl Pair {
             } else {
                 format!("{}{}", opname, if info.taken { ":taken" } else { "" })
             };
-            mismatch = Some(Mismatch {
+            found.push(Mismatch {
                 class: Class::Timing,
                 key: format!("{}:cycles", ctx),
-                what: format!("bus cycle list differs: real={:?} ref={:?}", real_cycles, ref_cycles),
+                what: format!("bus cycle list differs: real={:?} ref={:?}", real_all, ref_all),
             });
         }
-        StepOut { info, mismatch, ref_cycles, real_cycles }
+        let mismatch = if found.is_empty() { None } else { Some(found.remove(0)) };
+        let more = found;
+        StepOut { info, mismatch, more, ref_cycles: ref_all, real_cycles: real_all }
     }
 }
 
